@@ -11,7 +11,9 @@ cell, the five flags, and what the written file says where (cell card parameters
 block), the real file being read back by the independent reader spec.py.
 Oracle (independent of the model): in the written file every datum appears exactly once, in one block only, vectors
 have one entry per cell in cell order (trailing defaults may be omitted), nothing after the data block's terminator,
-values equal the API's; re-reading the written file with MontePy gives the same per-cell values.
+values equal the API's; re-reading the written file with MontePy gives the same per-cell values; the per-cell values
+MontePy reports right after reading the generated input are the ones the independent reader gives the input
+(cell parameter, else i-th entry of the data-block vector, else the default): either block means the same.
 """
 import copy
 import itertools
@@ -649,10 +651,17 @@ def gen_program(rng, meta, length=None):
             post = [] if style == "before" else (imp_ops[1:] if style == "mixed" else imp_ops)
             for o in pre:
                 ops.append(["I", "s"] + o[2:])
-            if rng.random() < 0.3:
+            # aim at what can go wrong: a class that is in the data block of the input gets a value for the new cell
+            place = meta.get("place", {})
+            has = meta.get("has", {})
+            if rng.random() < (0.75 if place.get("vol") == "data" and has.get("vol") else 0.3):
                 ops.append(["V", "s", rng.choice(VOL_CHOICES)])
-            if univs and rng.random() < 0.4:
+            if univs and rng.random() < (0.75 if place.get("u") == "data" else 0.4):
                 ops.append(["U", "s", rng.choice(univs + [0])])
+            if univs and rng.random() < (0.5 if place.get("fill") == "data" and has.get("fill") else 0.1):
+                ops.append(["G", "s", rng.choice(univs)])
+            if rng.random() < (0.4 if place.get("lat") == "data" and has.get("lat") else 0.05):
+                ops.append(["L", "s", rng.choice([1, 2])])
             ops.append(["A"])
             for o in post:
                 ops.append(["I", n] + o[2:])
@@ -717,6 +726,36 @@ def gen_program(rng, meta, length=None):
 
 def flag_ops(bits):
     return [["F", k, (bits >> i) & 1] for i, k in enumerate(CLASSES)]
+
+
+def targeted_programs(rng, meta):
+    """the histories the property names, one at a time, aimed at the ends of the vectors:
+    a complete new cell appended (every class set), the first / last cell removed, the cells reversed / rotated,
+    the last and the first cell edited in every class"""
+    cells = list(meta["cells"])
+    parts = list(meta["particles"])
+    univs = list(meta["universes"])
+    out = []
+    new = 60
+    app = [["N", new]] + [["I", "s", q, rng.choice(["2", "0.5", "4"])] for q in parts] + [["V", "s", rng.choice(VOL_CHOICES)]]
+    if univs:
+        app += [["U", "s", univs[0]]]
+        if len(univs) > 1:
+            app += [["G", "s", univs[-1]], ["L", "s", 1]]
+    out.append(("append", app + [["A"]]))
+    out.append(("append-then-set", [["N", new], ["A"]] + [["I", new, q, "2"] for q in parts] + [["V", new, "7.25"]]))
+    if len(cells) > 1:
+        out.append(("remove-last", [["R", cells[-1]]]))
+        out.append(("remove-first", [["R", cells[0]]]))
+        out.append(("reverse", [["O", list(reversed(cells))]]))
+        out.append(("rotate-append", [["O", cells[1:] + cells[:1]]] + app + [["A"]]))
+    edit = []
+    for n in {cells[0], cells[-1]}:
+        edit += [["I", n, rng.choice(parts), rng.choice(["3", "0"])], ["V", n, rng.choice(VOL_CHOICES)]]
+        if univs:
+            edit += [["U", n, rng.choice(univs)]]
+    out.append(("edit-ends", edit))
+    return out
 
 
 # --------------------------------------------------------------------------- the oracle (independent of the model)
@@ -827,9 +866,77 @@ def oracle(real, reread=True):
     return None
 
 
+def denote_text(text):
+    """the per-cell values of an input by MCNP's rule, through the independent reader only:
+    cell parameter, else the i-th entry of the data-block vector (not a jump), else the default"""
+    mode, cells, data, _ = describe(text)
+    vecs = {}
+    for d in data:
+        if d[0] == "o":
+            continue
+        k, ps, vec = d
+        for q in (ps if k == "imp" else [None]):
+            vecs.setdefault((k, q), []).append(vec)
+    out = []
+    for i, c in enumerate(cells):
+        def from_data(k, q):
+            for vec in vecs.get((k, q), []):
+                if i < len(vec) and vec[i] != "J" and isinstance(vec[i], Fraction):
+                    return vec[i]
+            return None
+        imp = []
+        for q in mode:
+            v = None
+            for ps, toks in c["imp"]:
+                if q in ps and toks:
+                    v = num(toks[0])
+                    break
+            if v is None:
+                v = from_data("imp", q)
+            imp.append((q, float(v) if v is not None else 0.0))
+
+        def one(k, conv):
+            if c[k] and c[k][0]:
+                return conv(num(c[k][0][0]))
+            v = from_data(k, None)
+            return None if v is None else conv(v)
+        u = one("u", lambda x: abs(int(x)))
+        out.append((c["num"], tuple(sorted(imp)), one("vol", float), u or 0, one("lat", lambda x: int(x)),
+                    one("fill", lambda x: int(x))))
+    return mode, out
+
+
+def read_oracle(text):
+    """either-block equivalence after reading: API values == the input's meaning by the independent reader"""
+    try:
+        pr = mp.read_problem(text, name="c09in.i")
+    except Exception:
+        return None                                    # reading is C12/C13's business
+    mode = real_mode(pr)
+    try:
+        api = api_view(pr, mode)
+    except Exception as e:
+        return {"kind": "api-raises-after-read", "detail": [exc_class(e), str(e)[:200]]}
+    smode, want = denote_text(text)
+    if sorted(smode) != sorted(mode):
+        return None
+    got = [(n_, tuple(sorted((q, float(x)) for q, x in im)), vo, uu or 0, la, fi) for n_, im, vo, uu, la, fi in api]
+    for g, w in zip(got, want):
+        ok = g[0] == w[0] and g[3:] == w[3:] and (g[2] is None) == (w[2] is None) and (g[2] is None or close(g[2], w[2])) \
+            and len(g[1]) == len(w[1]) and all(a[0] == b[0] and close(a[1], b[1]) for a, b in zip(g[1], w[1]))
+        if not ok:
+            return {"kind": "read-differs", "detail": ["cell %d" % g[0], "api after read", g, "input means", w]}
+    if len(got) != len(want):
+        return {"kind": "read-differs", "detail": ["number of cells", len(got), len(want)]}
+    return None
+
+
 def check_case(case, reread=True):
     real = run_real(case)
-    return oracle(real, reread=reread)
+    r = oracle(real, reread=reread)
+    if r is None and not case.get("ops"):
+        r = read_oracle(case["text"])
+    return r
 
 
 def shrink(case, kind):
@@ -902,7 +1009,7 @@ def ends_with_jump(text):
     return False
 
 
-NEUTRAL = {"L": ["F", "lat", 1], "P": ["F", "imp", 1], "M": ["F", "imp", 1], "U": ["F", "u", 0], "V": ["F", "vol", 0]}
+NEUTRAL = {"P": ["F", "imp", 1], "M": ["F", "imp", 1]}
 
 
 def model_diag(case):
@@ -953,7 +1060,7 @@ def replay(ctx, path):
 
 def run(ctx):
     quick = ctx.tier == "quick"
-    n_pairs = 34 if quick else 900
+    n_pairs = 30 if quick else 700
     # the order of write_to_file's steps is taken from the source on every run (Gen/Writer.v); Properties/C09.v
     # compares it with the order Model/Place.v assumes (C09_gen_writer_steps)
     try:
@@ -970,7 +1077,8 @@ def run(ctx):
     dist = {"source": {}, "cells": {}, "particles": {}, "placement_in_file": {k: {"cell": 0, "data": 0} for k in CLASSES},
             "statements": {}, "statement_errors": {}, "write": {}, "flags_at_write": {k: {"cell": 0, "data": 0} for k in CLASSES},
             "oracle_failures": {}, "model_diag": {}, "deepcopy_unsupported": 0, "reread_checked": 0,
-            "program_length": {}, "flag_assignment_position": {"start": 0, "end": 0}}
+            "program_length": {}, "flag_assignment_position": {"start": 0, "end": 0}, "targeted": {},
+            "read_oracle_checked": 0}
 
     def bump(d, k, n=1):
         d[k] = d.get(k, 0) + n
@@ -1001,6 +1109,22 @@ def run(ctx):
         for bits in range(32):                      # exhaustive over the 32 assignments
             ops = flag_ops(bits) + prog if where == "start" else prog + flag_ops(bits)
             cases.append({"text": text, "ops": ops, "src": src, "bits": bits, "pair": i})
+        # the histories the property names, one at a time: placement as read, everything in the data block,
+        # everything in the cell block (thorough: all 32)
+        for name, tprog in targeted_programs(rng, meta):
+            bump(dist["targeted"], name)
+            for bits in ([None, 31, 0] if quick else [None] + list(range(32))):
+                ops = tprog if bits is None else tprog + flag_ops(bits)
+                cases.append({"text": text, "ops": ops, "src": "targeted:" + name, "bits": bits, "pair": i})
+        # either block means the same: the API after reading vs the independent reader's meaning of the input
+        if "(" not in "".join(l for l in text.split("\n") if "fill" in l.lower()):
+            dist["read_oracle_checked"] += 1
+            f = read_oracle(text)
+            ctx.count_case(("read", text), nontrivial=True)
+            if f is not None:
+                bump(dist["oracle_failures"], f["kind"])
+                ctx.fail({"kind": f["kind"], "detail": json.loads(json.dumps(f["detail"], default=str)),
+                          "case": {"text": text, "ops": []}})
     # ---- the real code
     reals, reqs, tabs, kept = [], [], [], []
     for c in cases:
@@ -1041,7 +1165,7 @@ def run(ctx):
         if d:
             corr_bad.append({"case": {"text": c["text"], "ops": c["ops"]}, "first": json.loads(json.dumps(d[0], default=str))})
         # ---- oracle
-        rr = (not quick) or c.get("bits", 0) % 8 == 0 or c.get("src") == "corpus"
+        rr = (not quick) or (c.get("bits") or 0) % 8 == 0 or c.get("src") == "corpus" or c.get("src", "").startswith("targeted")
         dist["reread_checked"] += bool(rr and "out" in real)
         f = oracle(real, reread=rr)
         if f is not None:
@@ -1075,6 +1199,19 @@ def run(ctx):
                 pass
         ctx.broken_obligations.append({"obligation": "correspondence Place.read/run_ops/write vs MontePy read/API/write_to_file",
                                        "detail": {"n": len(corr_bad), "first": first["first"], "shrunk_case": small}})
+        # a disagreement is not a violation by itself: look for a concrete failing input at and around the shrunk case
+        # (the case itself, its input alone, the same statements under every placement)
+        if not any(not nf for _, nf in ctx.violations):
+            around = [small, {"text": small["text"], "ops": []}]
+            around += [{"text": small["text"], "ops": small["ops"] + flag_ops(b)} for b in (0, 31, 5, 26, 10, 21)]
+            for cand in around:
+                try:
+                    f = check_case(cand)
+                except Exception:
+                    f = None
+                if f is not None:
+                    ctx.fail({"kind": f["kind"], "detail": json.loads(json.dumps(f["detail"], default=str)), "case": cand})
+                    break
     # ---- replay the committed findings
     for fd in ctx.findings:
         if fd.get("status") == "open" and fd.get("replay"):
@@ -1098,17 +1235,22 @@ def run(ctx):
         f"vm_compute cross-check of {nx} requests",
     ]
     assumptions = [
-        "C09_exactly_once / C09_aligned / C09_histories are proved under clean (the decidable side conditions lat_ok, "
-        "imp_cell_ok, vol_ok, u_ok and the two documented refusals imp_data_ok, fill_ok); each excluded condition has a "
-        "_refuted theorem and an open known finding",
-        "C09_either_block assumes wf_file (each class in one block only, IMP vectors as long as the cell list, other "
-        "vectors not longer, IMP particles in MODE and not repeated)",
+        "C09_exactly_once_partial / C09_every_placement / C09_histories_partial / C09_placement_histories are proved under "
+        "clean: the partition condition on the importance trees of the cells (imp_cell_ok; only when IMP is printed in "
+        "the cell block; the model reports per case whether it holds: model_diag) and the two documented refusals "
+        "(imp_data_ok: ParticleTypeNotInCell; fill_ok: 'Fill can not be in the data block'); C09_aligned, "
+        "C09_inside_data_block, C09_history_invariant, C09_read_wf have no side condition",
         "values are opaque: math.isclose is modelled as equality (generated values are equal or far apart)",
+        "a write does not change the state in the model (Importance._format_tree edits classifiers in place in "
+        "MontePy): every case writes once",
     ]
     return ctx.finish(tb, assumptions,
-                      "cases = (generated problem, program, one of the 32 flag assignments); problems: gen_c09 (all five "
-                      "classes, LAT/FILL/U consistent) and gen.gen_problem with data_mods on/off; programs: new cell / deepcopy / "
-                      "remove / reorder / per-cell edits / flips; distinct = distinct (text, statements); non-trivial = the "
-                      "problem was written (no refusal, no crash)",
+                      "cases = (generated problem, program, flag assignment): every generated (problem, random program) pair "
+                      "under all 32 assignments of print_in_data_block, plus the targeted histories (complete cell appended, "
+                      "append then set, first / last cell removed, cells reversed, rotated + appended, both ends edited) under "
+                      "the placement as read / all data block / all cell block (thorough: all 32), plus one read-side case "
+                      "per problem; problems: gen_c09 (all five classes, LAT/FILL/U consistent) and gen.gen_problem with "
+                      "data_mods on/off; distinct = distinct (text, statements); non-trivial = the problem was written "
+                      "(no refusal, no crash)",
                       extra={"input_distribution": dist, "oracle_failures_total": n_fail,
                              "correspondence_disagreements": len(corr_bad)})
